@@ -149,6 +149,7 @@ def cases(tier):
     th = tier == "thorough"
     out = []
     hs = CL.histories(3, False) if th else CL.histories(2, False, ops=["set_pos", "set_mom", "set_dir", "copy", "copy_ro", "view_ro", "switch"])
+    hs += [["set_pos_ro"], ["set_pos_ro", "copy"], ["set_pos_ro", "copy_ro"], ["copy", "set_pos_ro"], ["set_mom", "set_pos_ro"]]
     for sname in CL.SYSTEMS:
         for conv in ("plain", "aux"):
             out.append(Case(f"hist/{sname}/{conv}", run_group, {"probs": [("hist", {"sname": sname, "history": h, "convention": conv}) for h in hs]},
